@@ -457,6 +457,6 @@ int main(int argc, char **argv) {
   if (mode == "late") { hx::set_current("late lane"); return late_mode(eng, argc > 3 && atoi(argv[3]) != 0); }
   size_t depth = argc > 3 ? atoi(argv[3]) : 5; int cfg = argc > 4 ? atoi(argv[4]) : 0; g_part = argc > 5 ? atoi(argv[5]) : 0; g_nparts = argc > 6 ? atoi(argv[6]) : 1;
   if (cfg < 0 || cfg >= NCFG) cfg = 0;
-  if (cfg == CFG_BIG_SLEEP && !hx::env_int("C02_BIG_SLEEP", 0)) { printf("@INFO configuration %d is switched off (set C02_BIG_SLEEP=1)\n@STAT states=0 transitions=0 executions=0\n", cfg); return 0; }
+  if (cfg == CFG_BIG_SLEEP && !hx::env_int("C02_BIG_SLEEP", 1)) { printf("@INFO configuration %d is switched off (set C02_BIG_SLEEP=1)\n@STAT states=0 transitions=0 executions=0\n", cfg); return 0; }
   return mode == "pool" ? pool_mode(eng, depth) : timer_mode(eng, depth, cfg);
 }
